@@ -35,6 +35,8 @@ MUTS = [
  ("S1", "seeded class: fragment marked visited BEFORE the spread's @skip/@include is evaluated", CF, "            if (\n                _skip_selection(selection, variables)\n                or name in _seen_fragments\n                or not _fragment_type_applies(schema, object_type, fragment)\n            ):\n                continue\n", "            if name in _seen_fragments:\n                continue\n            _seen_fragments.add(name)\n            if (\n                _skip_selection(selection, variables)\n                or not _fragment_type_applies(schema, object_type, fragment)\n            ):\n                continue\n"),
  ("S5", "seeded class: KnownFragmentNamesChecker keeps a CLASS-level set that only grows", "src/py_gql/validation/rules/__init__.py", "    def enter_document(self, node):\n        self._fragment_names = set(\n            [\n                definition.name.value\n                for definition in node.definitions\n                if type(definition) == _ast.FragmentDefinition\n            ]\n        )\n\n    def enter_fragment_spread(self, node):\n        name = node.name.value\n        if name not in self._fragment_names:", "    _fragment_names = set()  # type: ignore\n\n    def enter_document(self, node):\n        self._fragment_names.update(\n            [\n                definition.name.value\n                for definition in node.definitions\n                if type(definition) == _ast.FragmentDefinition\n            ]\n        )\n\n    def enter_fragment_spread(self, node):\n        name = node.name.value\n        if name not in self._fragment_names:"),
  ("S4", "seeded class: default_resolver falls through to getattr for a Mapping parent lacking the key", "src/py_gql/execution/default_resolver.py", "    if __isinstance(root, __mapping_cls):\n        return root.get(info.field_definition.python_name, None)\n", "    if __isinstance(root, __mapping_cls) and info.field_definition.python_name in root:\n        return root[info.field_definition.python_name]\n"),
+ ("S6", "seeded class: merged sub-selections built IN PLACE on the first node's selection list", EX, "                self.collect_fields(\n                    runtime_type,\n                    [\n                        selection\n                        for field in nodes\n                        if field.selection_set\n                        for selection in field.selection_set.selections\n                    ],\n                ),", "                self.collect_fields(\n                    runtime_type,\n                    _merged_in_place(nodes),\n                ),"),
+ ("S7", "seeded class: TypeInfoVisitor.leave_inline_fragment pops only for typed fragments", "src/py_gql/validation/visitors.py", "    def leave_inline_fragment(self, _node):\n        self._type_stack.pop()", "    def leave_inline_fragment(self, _node):\n        if _node.type_condition:\n            self._type_stack.pop()"),
  ("S3", "seeded class: _find_conflict tests isinstance(parent_1, ObjectType) twice", "src/py_gql/validation/rules/overlapping_fields_can_be_merged.py", "        and isinstance(parent_1, ObjectType)\n        and isinstance(parent_2, ObjectType)", "        and isinstance(parent_1, ObjectType)\n        and isinstance(parent_1, ObjectType)"),
 ]
 
@@ -48,7 +50,20 @@ for mid, name, f, old, new in MUTS:
     if s.count(old) != 1:
         print(mid, name, "PATTERN COUNT", s.count(old), flush=True)
         continue
-    open(p, 'w').write(s.replace(old, new))
+    txt = s.replace(old, new)
+    if mid == "S6":
+        txt += '''
+
+def _merged_in_place(nodes):
+    first = [n for n in nodes if n.selection_set]
+    if not first:
+        return []
+    merged = first[0].selection_set.selections
+    for field in first[1:]:
+        merged += field.selection_set.selections
+    return merged
+'''
+    open(p, 'w').write(txt)
     out = []
     for prop in ("C04", "C05"):
         r = sh('PYGQL_REPO=%s /venv/bin/python harness/check.py %s --tier quick' % (R, prop), cwd=W)
